@@ -2506,6 +2506,11 @@ class Interp:
         if isinstance(node, ast.Assign) and isinstance(node.value, (ast.Subscript, ast.BinOp, ast.Name, ast.Attribute)):
             # a type alias: validate against what it stands for
             return self.pyd_validate(v, node.value, smart, cv, fname, st, site)
+        if isinstance(node, ast.Assign) and isinstance(node.value, ast.Call) and (dotted(node.value.func) or "").split(".")[-1] == "NewType" \
+                and len(node.value.args) == 2:
+            # typing.NewType("X", base): pydantic validates against the base type (but a value is never an *exact* match of X,
+            # so in a smart Union the left-to-right coercion decides)
+            return self.pyd_validate(v, node.value.args[1], smart, cv, fname, st, site)
         if isinstance(node, ast.ClassDef):
             target = self.class_val(mm, node)
         if target is None:
